@@ -33,6 +33,7 @@ type nodeAnswer struct {
 	RN    string  `json:"rn"`
 	Count int     `json:"count"`
 	Error string  `json:"error"`
+	Timed bool    `json:"timeout"`
 
 	ru, rn []byte
 }
@@ -41,6 +42,8 @@ func (a *nodeAnswer) bitU(i int) bool { return a.ru[i>>3]&(1<<(i&7)) != 0 }
 func (a *nodeAnswer) bitN(i int) bool { return a.rn[i>>3]&(1<<(i&7)) != 0 }
 
 const nodeBin = "/usr/bin/node"
+
+var errNodeTimeout = fmt.Errorf("node oracle: watchdog stopped the pattern")
 
 // nodeScript locates the oracle script; "" when node or the script is missing.
 func nodeScript() string {
@@ -136,6 +139,9 @@ func (n *nodeOracle) recv(id, want int) (*nodeAnswer, error) {
 	}
 	if a.ID != id || a.Error != "" {
 		n.dead = a.ID != id
+		if a.ID == id && a.Timed {
+			return nil, errNodeTimeout
+		}
 		return nil, fmt.Errorf("node oracle: id %d (want %d) error %q", a.ID, id, a.Error)
 	}
 	if a.Count != want {
@@ -160,7 +166,5 @@ func (n *nodeOracle) close() {
 		return
 	}
 	n.inc.Close()
-	done := make(chan struct{})
-	go func() { n.cmd.Wait(); close(done) }()
-	<-done
+	n.cmd.Wait()
 }
